@@ -97,6 +97,24 @@ func drawDialectModel(t *rapid.T, idx int) XDialect {
 		f := XFile{Name: base}
 		if fi > 0 {
 			f.Name = fmt.Sprintf("%s_inc%d", base, fi)
+			// included files are distinct by their address, not by a shortened name: a later file may share its
+			// base name with an earlier one in another directory, or differ from it only by case or underscores
+			if fi > 1 {
+				prev := d.Files[fi-1].Name
+				if k := strings.LastIndex(prev, "/"); k >= 0 {
+					prev = prev[k+1:]
+				}
+				switch rapid.IntRange(0, 8).Draw(t, "file_name_style") {
+				case 0:
+					f.Name = fmt.Sprintf("vendor%d/%s", fi, prev)
+				case 1:
+					f.Name = strings.ReplaceAll(prev, "_", "") + strings.Repeat("_", fi)
+				case 2:
+					f.Name = strings.ToUpper(prev[:1]) + prev[1:] + strings.Repeat("_", fi)
+				case 3:
+					f.Name = fmt.Sprintf("sub%d/%s_inc%d", fi, base, fi)
+				}
+			}
 		}
 		if rapid.Bool().Draw(t, "has_version") {
 			f.Version = fmt.Sprint(rapid.IntRange(0, 255).Draw(t, "version"))
@@ -146,6 +164,7 @@ func drawDialectModel(t *rapid.T, idx int) XDialect {
 					continue
 				}
 				e.Bitmask = rapid.Bool().Draw(t, "bitmask")
+				e.AttrStyle = rapid.IntRange(0, 3).Draw(t, "bitmask_attr_spelling")
 				enumsSoFar = append(enumsSoFar, enumInfo{e.Name, e.Bitmask})
 				usedValues[e.Name] = map[uint64]bool{}
 			}
